@@ -60,6 +60,19 @@ def handle (op : String) (req : Json) : P (List (String × Json)) := do
     let tmpl ← listOf axis (← fld req "template")
     let fk ← kind (← fld req "fillkind")
     pure [("lib", encExcept encDimArray (Lib.reindexLike a tmpl Cell.fill fk false none))]
+  | "union" => do
+    let a ← axis (← fld req "a")
+    let b ← axis (← fld req "b")
+    let r := if (← str (← fld req "join")) == "outer" then Lib.union a b else Lib.intersection a b
+    pure [("lib", Json.mkObj [("ok", encAxis r)])]
+  | "align" => do
+    let as ← arrays req
+    let join := if (← str (fldD req "join" (Json.str "outer"))) == "outer" then Lib.Join.outer else Lib.Join.inner
+    let ax ← optOf str (fldD req "axis" Json.null)
+    let sort ← bool (fldD req "sort" (Json.bool false))
+    let strict ← bool (fldD req "strict" (Json.bool false))
+    let r := Lib.align Cell.nan as join ax sort strict
+    pure [("lib", encExcept (fun l => Json.arr (l.map encDimArray).toArray) r)]
   | "sort_axis" => do
     let as ← arrays req
     let a ← match as with | a :: _ => pure a | [] => throw "no array"
